@@ -238,9 +238,11 @@ fn props(path: &str) -> Vec<Value> {
         let back = to_map.clone().ok().flatten().and_then(|m| m.map_to_proplist().ok());
         let map_again = back.as_ref().and_then(|p| p.proplist_to_map().ok());
         let norm = catch(|| l.normalize_proplist().ok());
+        // a bare atom is short for {Atom, true}: converting the list and converting its normal form must agree, duplicates or not
+        let to_map_of_normal = catch(|| l.normalize_proplist().ok().and_then(|n| n.proplist_to_map().ok()));
         let rec = catch(|| l.to_map_recursive().ok());
         let d = |r: &Result<Option<OwnedTerm>, String>| match r { Ok(Some(t)) => denote(t), Ok(None) => json!({"error": true}), Err(p) => json!({"panic": p}) };
-        json!({"to_map": d(&to_map), "map_to_proplist": back.as_ref().map(denote), "map_again": map_again.as_ref().map(denote), "normalized": d(&norm), "recursive": d(&rec),
+        json!({"to_map": d(&to_map), "to_map_of_normalized": d(&to_map_of_normal), "map_to_proplist": back.as_ref().map(denote), "map_again": map_again.as_ref().map(denote), "normalized": d(&norm), "recursive": d(&rec),
                "is_proplist": l.is_proplist()})
     }).collect()
 }
